@@ -175,8 +175,11 @@ class LetFiller(Visitor):
             return circuitbuilder.as_integer(value)
         if isinstance(const.value, (int, float)):
             return const.value
+        elif isinstance(const.value, Constant):
+            # A constant defined by another constant (only the builder can
+            # make one) has that constant's value, overrides included.
+            return self.resolve_constant(const.value)
         else:
-            # I don't think this can happen
             raise JaqalError(f"Constant {const.name} has non-numeric value")
 
 
